@@ -38,6 +38,8 @@ var (
 	probe      []string
 	chainOps   = []string{"*", "and", "or", "unless"}
 	chainRight = []string{"bar", "sum(bar)", "sum by(a) (bar)", "vector(1)"}
+	orAlts     = []string{"foo", `foo{a="x"}`, "sum(foo)", "sum by(a) (foo)", "vector(1)"}
+	orRight    = []string{"bar", `bar{a="x"}`, "sum(bar)", "sum by(a) (bar)", "vector(1)"}
 	reOps      = []string{"and", "unless", "*", "or"}
 	reMod1     = []string{"", "on(a)", "ignoring(b)", "on(a, a)"}
 	reAgg      = []string{"sum without(a) (%s)", "sum without(a, a) (%s)", "sum by(b) (%s)", "sum by(b, b) (%s)", "sum by(a, b) (%s)", "min without(a, c) (%s)", "sum(%s)"}
@@ -144,7 +146,7 @@ func reportedLabels(expr string) (map[string]bool, string) {
 func body(c *explore.Chooser) *explore.Case {
 	// sub-spaces: 0 = <=1 operator over the full alphabet; 1 = core unary wrapper around <=1 operator (core);
 	// thorough adds 2 = <=2 operators (core, complete) and 3 = <=2 operators (full alphabet, time-capped)
-	subs := []string{"full1", "wrapped", "chain", "reinclude"}
+	subs := []string{"full1", "wrapped", "chain", "reinclude", "orjoin"}
 	if tier == "thorough" {
 		subs = append(subs, "core2", "full2")
 	}
@@ -202,6 +204,16 @@ func body(c *explore.Chooser) *explore.Case {
 		if c.Free(2, "flip") == 1 {
 			e.Text = "(" + inner + ") " + op + " " + mod1 + " " + sel
 		}
+		ok = true
+	case "orjoin":
+		// (L1 or L2) OP MOD R, both orientations: several result branches on one side of a join
+		l1, l2 := pick(orAlts, "l1"), pick(orAlts, "l2")
+		op, mod, r := pick(chainOps, "op"), pick(core.Modifiers, "mod"), pick(orRight, "r")
+		l := l1 + " or " + l2
+		if c.Free(2, "flip") == 1 {
+			l, r = r, l
+		}
+		e = promqlgen.Expr{Text: "(" + l + ") " + op + " " + mod + " (" + r + ")", Metrics: map[string]bool{"foo": true, "bar": true}, Ops: 3}
 		ok = true
 	case "core2":
 		e, ok = promqlgen.Gen(c, &promqlgen.Core, 2, "e")
@@ -434,7 +446,7 @@ func describeSources(src []utils.Source) []string {
 func main() {
 	explore.Main(&explore.Config{
 		Property: "C04", Level: "exploration",
-		Rule: "PromQL expressions enumerated from a grammar (selectors x matcher sets, aggregations with by/without, topk/count_values/label_replace/label_join/absent/range functions/subquery/offset, arithmetic/comparison/set operators x on/ignoring/group_left/group_right modifiers): quick = the 3-operator shapes chain (U2(U1(sel)) op mod R, both orientations, core unary/modifiers) and reinclude (sel op mod1 (agg(bar) * mod2 sel3), label lists with repeated names), all with <=1 operator node over the full alphabet and every core unary wrapper around every <=1-operator core expression; thorough adds all with <=2 operator nodes over the core alphabet (complete) and over the full alphabet (time-capped). Every expression on which pint makes a claim (a branch that cannot have some label of {a,b,c,__name__}, or a dead branch) is evaluated by the vendored Prometheus engine on EVERY database of <=2 series drawn from {foo,bar} x {a: absent|x|y} x {b: absent|x} x {c: absent|x}; oracle (i) labels the real alerts/template check reports for single-branch queries never appear on a returned series, (ii) every returned series is consistent with some live branch. distinct = expression text; non-trivial = pint makes a claim",
+		Rule: "PromQL expressions enumerated from a grammar (selectors x matcher sets, aggregations with by/without, topk/count_values/label_replace/label_join/absent/range functions/subquery/offset, arithmetic/comparison/set operators x on/ignoring/group_left/group_right modifiers): quick = the 3-operator shapes chain (U2(U1(sel)) op mod R, both orientations, core unary/modifiers) reinclude (sel op mod1 (agg(bar) * mod2 sel3), label lists with repeated names) and orjoin ((L1 or L2) op mod R, both orientations), all with <=1 operator node over the full alphabet and every core unary wrapper around every <=1-operator core expression; thorough adds all with <=2 operator nodes over the core alphabet (complete) and over the full alphabet (time-capped). Every expression on which pint makes a claim (a branch that cannot have some label of {a,b,c,__name__}, or a dead branch) is evaluated by the vendored Prometheus engine on EVERY database of <=2 series drawn from {foo,bar} x {a: absent|x|y} x {b: absent|x} x {c: absent|x}; oracle (i) labels the real alerts/template check reports for single-branch queries never appear on a returned series, (ii) every returned series is consistent with some live branch. distinct = expression text; non-trivial = pint makes a claim",
 		Assumptions: []string{
 			"the engine (promql.NewEngine of the vendored Prometheus) over our 60-line in-memory storage is the truth; one evaluation instant, 5m lookback, rising samples every minute",
 			"engine errors (many-to-many matching) count as no result",
